@@ -140,7 +140,7 @@ REQUIRED_GROUPS = ["from", "join", "subquery", "cte", "dml_target", "using", "co
                    "explain", "ctas", "setop", "lateral", "tablefunc"]
 FILLERS = ["SELECT 1", "BEGIN", "COMMIT", "SELECT * FROM other_tbl", "SET statement_timeout = 0", "SELECT 'secret'"]
 
-LISTED_POOL = [b"secret", b"pg_user", b"Mixed", b"a.b", b"UPPER", b"tbl_1", b"has space", b"t" + b"x" * 62, b"u" + b"y" * 61]
+LISTED_POOL = [b"secret", b"pg_user", b"Mixed", b"Accounts", b"a.b", b"UPPER", b"tbl_1", b"has space", b"t" + b"x" * 62, b"u" + b"y" * 61]
 UNLISTED_POOL = [b"other", b"secrets", b"secre", b"users", b"mixed", b"upper", b"b", b"public"]
 NONASCII_POOL = ["secrÉt".encode(), "données".encode(), "Über".encode(), "straße".encode(), ("é" * 31 + "x").encode(), ("w" * 60 + "é").encode()]
 
@@ -925,8 +925,83 @@ def wire_text(kind_id, parsed, v, want_tx=None, cur_tx=False):
     if v[0] == "Intercept":
         return "select %d as intercepted" % v[1]
     if want_tx is None or want_tx == cur_tx:
-        return "SELECT %d" % kind_id
+        # allowed statements come in two kinds: plain, and on a table that only the DECOY plugins section lists
+        return ("SELECT %d" if kind_id % 2 else "SELECT %d FROM gonly%d") % ((kind_id,) if kind_id % 2 else (kind_id, kind_id))
     return ("BEGIN /*c19:%d*/" if want_tx else "COMMIT /*c19:%d*/") % kind_id
+
+
+GON = 1000        # tags of verdicts earned from the decoy section
+
+
+def base_texts(ops, overrides):
+    """the text every Q (by id) / P (by statement key) carries when it does not have to steer the transaction state"""
+    t = {}
+    for m in ops:
+        if m[0] == "MQ":
+            t[("Q", m[1])] = wire_text(m[1], m[2], m[3])
+        elif m[0] == "MP":
+            t[("P", m[3])] = (overrides or {}).get(m[3]) or wire_text(m[3], m[4], m[5])
+    return t
+
+
+def plugin_sections(mode, ops):
+    """(global, pool db, pool db2) plugin sections for a configuration mode.  REAL lists what the sequence's intended verdicts
+    need (secret<id>, 'select <id> as intercepted'); DECOY lists other tables and intercepts the plain allowed texts."""
+    ids = sorted({m[1] for m in ops} | {m[3] for m in ops if m[0] == "MP"})
+    icpt = sorted({v[1] for m in ops for v in [m[3] if m[0] == "MQ" else (m[5] if m[0] == "MP" else ("Allow",))] if v[0] == "Intercept"})
+    real = {"ta": (True, ["secret%d" % i for i in ids]), "ic": (True, {str(t): ("select %d as intercepted" % t, t) for t in icpt}) if icpt else None}
+    decoy = {"ta": (True, ["gonly%d" % i for i in ids]), "ic": (True, {"g%d" % k: ("SELECT %d" % k, GON + k) for k in ids if k % 2})}
+    if not decoy["ic"][1]:
+        decoy["ic"] = None
+    off = lambda sec: {"ta": (False, sec["ta"][1]), "ic": (False, sec["ic"][1]) if sec["ic"] else None}
+    return {"none": (None, None, None), "pool": (None, real, None), "global": (real, None, None), "both": (decoy, real, None),
+            "both_pool_off": (real, off(real), None), "two_pools": (decoy, real, None), "two_pools_off": (decoy, real, off(decoy)),
+            "global_off_pool_on": (off(real), real, None)}[mode]
+
+
+def coq_section(sec):
+    if sec is None:
+        return "None"
+    ta, ic = sec["ta"], sec["ic"]
+    rules = "; ".join("mkRule %s [[%s; %s]] [[%s]]" % (vlib.coq_bytes(q.encode()), vlib.coq_bytes(b"id"), vlib.coq_bytes(b"int4"), vlib.coq_bytes(str(val).encode()))
+                      for _, (q, val) in sorted(ic[1].items())) if ic else ""
+    return "(Some (mkPcfg %s %s [%s] %s %s %s))" % (b2c(bool(ic)), b2c(bool(ic and ic[0])), rules, b2c(bool(ta)), b2c(bool(ta and ta[0])),
+                                                  coq_blist([t.encode() for t in ta[1]]) if ta else "[]")
+
+
+def toml_section(sec):
+    if sec is None:
+        return None
+    out = "[plugins]\n"
+    if sec["ta"]:
+        out += "[plugins.table_access]\nenabled = %s\ntables = [%s]\n" % (b2c(sec["ta"][0]), ", ".join('"%s"' % t for t in sec["ta"][1]))
+    if sec["ic"]:
+        out += "[plugins.intercept]\nenabled = %s\n" % b2c(sec["ic"][0])
+        for k, (q, val) in sorted(sec["ic"][1].items()):
+            out += '[plugins.intercept.queries.%s]\nquery = "%s"\nschema = [["id", "int4"]]\nresult = [["%d"]]\n' % (k, q, val)
+    return out
+
+
+def eff_of(summary):
+    """parsed Coq [plugins_summary]: None | (table_access on, tables, intercept on, rule queries)"""
+    if summary is None:
+        return None
+    ta_on, tables, ic_on, queries = summary[1]
+    return (ta_on, {bytes(t) for t in tables}, ic_on, {bytes(bytes(q).lower()) for q in queries})
+
+
+def oracle(text, eff):
+    """verdict of one of OUR texts under the effective section (intercept first, then table_access, as execute_plugins)"""
+    if eff is None:
+        return ("Allow",)
+    ta_on, tables, ic_on, queries = eff
+    if ic_on and text.lower().encode() in queries:
+        k = int(re.search(r"\d+", text).group())
+        return ("Intercept", k if text.endswith("as intercepted") else GON + k)
+    m = re.search(r"FROM (secret|gonly)(\d+)$", text)
+    if ta_on and m and (m.group(1) + m.group(2)).encode() in tables:
+        return ("Deny", int(m.group(2)) + (GON if m.group(1) == "gonly" else 0))
+    return ("Allow",)
 
 
 def msg_tuple(pm):
@@ -941,35 +1016,29 @@ def msg_tuple(pm):
     return tuple(pm)
 
 
-def build_wire_scenario(cfg, rows, overrides=None):
-    """rows: [(msg, held_before, cur_tx_before, events)] from the Coq model.  Returns (scenario, expectations)."""
+def build_wire_scenario(cfg, rows, prep):
+    """rows: [(msg, held_before, cur_tx_before, events)] from the Coq model; prep: the sequence's texts, plugin sections and
+    effective sections (prepare_wire).  Returns (scenario, expectations)."""
     from props import wirelib as W
-    ids = sorted({m[1] for m, _, _, _ in rows})
-    rules, text_of = {}, {}
+    base, (gsec, psec, psec2) = prep["base"], prep["sections"]
+    text_of = {}
     for m, held, cur, evs in rows:
         if m[0] == "MQ":
-            text_of[("Q", m[1])] = wire_text(m[1], m[2], m[3], m[5], cur)
-            if m[2] and m[3][0] == "Intercept":
-                rules[m[3][1]] = 1
+            t = base[("Q", m[1])]
+            if m[2] and m[3] == ("Allow",) and m[5] != cur:        # an allowed query may steer the transaction state
+                t = wire_text(m[1], True, ("Allow",), m[5], cur)
+            text_of[("Q", m[1])] = t
         elif m[0] == "MP":
-            text_of[("P", m[1])] = (overrides or {}).get(m[3]) or wire_text(m[3], m[4], m[5])          # keyed by statement identity
-            if m[4] and m[5][0] == "Intercept":
-                rules[m[5][1]] = 1
-    plug = None
-    if cfg["plugins_on"]:
-        plug = "[plugins]\n[plugins.table_access]\nenabled = true\ntables = [%s]\n" % ", ".join('"secret%d"' % i for i in ids)
-        if rules:
-            plug += "[plugins.intercept]\nenabled = true\n"
-        for t in sorted(rules):
-            plug += '[plugins.intercept.queries.%d]\nquery = "select %d as intercepted"\nschema = [["id", "int4"]]\nresult = [["%d"]]\n' % (t, t, t)
-    # pool-level plugins are refused by the config check when the pool's parser is off; the global [plugins] section is
-    # inherited by such a pool without complaint (and is inert there)
-    pool_level = cfg["parser_on"]
-    toml = W.make_toml(general={"connect_timeout": 300}, plugins=None if pool_level else plug,
-                       pools={"db": {"opts": {"query_parser_enabled": cfg["parser_on"], "prepared_statements_cache_size": 500 if cfg["ps_on"] else 0,
-                                              "pool_mode": "transaction" if cfg["txn_mode"] else "session"},
-                                     "plugins": plug if pool_level else None, "users": [{"username": "u", "password": "pw", "pool_size": 1}],
-                                     "shards": [{"database": "db0", "servers": [["b0", "primary"]]}]}})
+            text_of[("P", m[1])] = base[("P", m[3])]               # keyed by statement identity
+    two = prep["mode"].startswith("two_pools")
+    pools = {"db": {"opts": {"query_parser_enabled": cfg["parser_on"], "prepared_statements_cache_size": 500 if cfg["ps_on"] else 0,
+                             "pool_mode": "transaction" if cfg["txn_mode"] else "session"},
+                    "plugins": toml_section(psec), "users": [{"username": "u", "password": "pw", "pool_size": 1}],
+                    "shards": [{"database": "db0", "servers": [["b0", "primary"]]}]}}
+    if two:
+        pools["db2"] = {"opts": {"query_parser_enabled": True}, "plugins": toml_section(psec2), "users": [{"username": "u", "password": "pw", "pool_size": 1}],
+                        "shards": [{"database": "db1", "servers": [["b0", "primary"]]}]}
+    toml = W.make_toml(general={"connect_timeout": 300}, plugins=toml_section(gsec), pools=pools)
     steps = [{"op": "connect", "c": "a", "params": {"user": "u", "database": "db"}, "password": "pw", "timeout_ms": 1500}]
     nhold = 0
     exp_backend, exp_client, ours, reply_ops = [], [], set(text_of.values()), []
@@ -1034,14 +1103,29 @@ def build_wire_scenario(cfg, rows, overrides=None):
             break
     if not ended:
         steps.append({"op": "recv", "c": "a", "until": "Z", "timeout_ms": 150, "label": "drain"})
-    return {"backends": [{"name": "b0"}], "toml": toml, "steps": steps}, {"backend": exp_backend, "client": exp_client, "texts": ours, "ended": ended, "reply_ops": reply_ops}
+    exp_b = []
+    if two:
+        # a client of the OTHER pool: the same texts under that pool's effective section
+        k0 = min(m[1] for m, _, _, _ in rows)
+        steps.append({"op": "connect", "c": "b", "params": {"user": "u", "database": "db2"}, "password": "pw", "timeout_ms": 1500})
+        for t in ("SELECT %d FROM gonly%d" % (k0, k0), "SELECT %d FROM secret%d" % (k0, k0), "SELECT %d" % (k0 | 1), "select %d as intercepted" % k0):
+            v = oracle(t, prep["eff2"])
+            ours.add(t)
+            steps += [{"op": "send", "c": "b", "msgs": [{"t": "Q", "sql": t}]}, {"op": "recv", "c": "b", "until": "Z", "timeout_ms": 2500}]
+            if v[0] == "Allow":
+                exp_backend.append(("Q", t)); exp_b.append(("other",))
+            else:
+                exp_b.append(("plugin_error" if v[0] == "Deny" else "intercept", v[1]))
+    return ({"backends": [{"name": "b0"}], "toml": toml, "steps": steps},
+            {"backend": exp_backend, "client": exp_client, "client_b": exp_b, "texts": ours, "ended": ended, "reply_ops": reply_ops,
+             "rejected_texts": {t for t in ours if oracle(t, prep["eff"]) != ("Allow",)} if cfg["parser_on"] else set()})
 
 
 def pool_ok(m):
     return m[4] if m[0] == "MQ" else (m[2] if m[0] in ("MS", "MH") else True)
 
 
-def observe_wire(res, texts):
+def observe_wire(res, texts, client="a"):
     """(backend messages of the client's texts in order, client reply groups in order, holder ok)"""
     back, frames, hold_ok = [], [], True
     for e in res.get("events", []):
@@ -1052,7 +1136,7 @@ def observe_wire(res, texts):
                     back.append((t, d["sql"]))
             elif t in ("B", "E", "D", "C", "S", "H"):
                 back.append((t,))
-        elif e.get("ev") == "recv" and e.get("who") == "a":
+        elif e.get("ev") == "recv" and e.get("who") == client:
             frames.extend(e["frames"])
         elif e.get("ev") == "recv" and str(e.get("who", "")).startswith("h") and e.get("outcome") != "ok":
             hold_ok = False
@@ -1067,9 +1151,9 @@ def observe_wire(res, texts):
         for f in g:
             if f.get("t") == "E" and f.get("fields", {}).get("C") == "58000":
                 msg = f["fields"].get("M", "")
-                m = re.match(r'^permission for table "secret(\d+)" denied$', msg)
+                m = re.match(r'^permission for table "(secret|gonly)(\d+)" denied$', msg)
                 if m:
-                    cls = ("plugin_error", int(m.group(1)))
+                    cls = ("plugin_error", int(m.group(2)) + (GON if m.group(1) == "gonly" else 0))
                 elif msg.startswith("could not get connection from the pool"):
                     cls = ("pool_error",)
                 elif re.match(r'^prepared statement ".*" does not exist$', msg):
@@ -1081,6 +1165,40 @@ def observe_wire(res, texts):
     return back, out, hold_ok, cur
 
 
+MODES_ON = ["pool", "global", "both", "two_pools", "global_off_pool_on", "two_pools_off", "both_pool_off"]
+MODES_OFF = ["none", "both_pool_off"]
+
+
+def prepare_wire(seqs):
+    """configuration dimension: which plugins sections exist (global / pool / both / second pool), and - by the Coq
+    definition [effective_plugins] - which one is in force for each pool; the verdict of every text follows from that."""
+    preps = []
+    for i, (c, ops, x) in enumerate(seqs):
+        if x.get("mode"):
+            mode = x["mode"]
+        elif not c["parser_on"]:
+            mode = "global" if c["plugins_on"] else "none"     # a pool-level section is refused when the pool's parser is off
+        else:
+            mode = MODES_ON[i % len(MODES_ON)] if c["plugins_on"] else MODES_OFF[i % len(MODES_OFF)]
+        preps.append({"mode": mode, "sections": plugin_sections(mode, ops), "base": base_texts(ops, x.get("texts"))})
+    exprs = ["(plugins_summary (effective_plugins %s %s), plugins_summary (effective_plugins %s %s))" %
+             (coq_section(p["sections"][0]), coq_section(p["sections"][1]), coq_section(p["sections"][0]), coq_section(p["sections"][2])) for p in preps]
+    vals = vlib.coq_eval("c19_wcfg", PRE, exprs, shard=40)
+    out = []
+    for (c, ops, x), p, v in zip(seqs, preps, vals):
+        e1, e2 = pcoq(v)
+        p["eff"], p["eff2"] = eff_of(e1), eff_of(e2)
+        ops2 = []
+        for m in ops:
+            if m[0] == "MQ" and m[2]:
+                m = ("MQ", m[1], m[2], oracle(p["base"][("Q", m[1])], p["eff"]), m[4], m[5])
+            elif m[0] == "MP" and m[4]:
+                m = ("MP", m[1], m[2], m[3], m[4], oracle(p["base"][("P", m[3])], p["eff"]))
+            ops2.append(m)
+        out.append((dict(c, plugins_on=p["eff"] is not None), ops2, x, p))
+    return out
+
+
 def check_wire(run, n, st):
     """the Coq machine and the real Client::handle on the same message sequences, over the wire"""
     ok, blog, bins = vlib.cargo_build(["wire"])
@@ -1090,13 +1208,15 @@ def check_wire(run, n, st):
     from props import wirelib as W
     prod = product_sequences()
     st["wire_product"] = len(prod)
-    seqs = [(dict(c), list(o), {}) for c, o in FIXED] + prod + [gen_wire_sequence(run.rng) for _ in range(n)]
-    exprs = ["wrun [%s] %s init [%s]" % ("; ".join(str(k) for k in x.get("keep", [])), coq_cfg(c), "; ".join(coq_msg(m) for m in ops)) for c, ops, x in seqs]
+    seqs = prepare_wire([(dict(c), list(o), {}) for c, o in FIXED] + prod + [gen_wire_sequence(run.rng) for _ in range(n)])
+    exprs = ["wrun [%s] %s init [%s]" % ("; ".join(str(k) for k in x.get("keep", [])), coq_cfg(c), "; ".join(coq_msg(m) for m in ops)) for c, ops, x, p in seqs]
     vals = vlib.coq_eval("c19_wire", WPRE, exprs, shard=20)
     scns, exps, metas = [], [], []
-    for (c, ops, x), v in zip(seqs, vals):
+    for (c, ops, x, p), v in zip(seqs, vals):
         rows = [(msg_tuple(r[0]), r[1], r[2], r[3]) for r in pcoq(v)]
-        sc, ex = build_wire_scenario(c, rows, x.get("texts"))
+        sc, ex = build_wire_scenario(c, rows, p)
+        ex["mode"] = p["mode"]
+        st["wire_modes"][p["mode"]] = st["wire_modes"].get(p["mode"], 0) + 1
         scns.append(sc); exps.append(ex); metas.append((c, [r[0] for r in rows], rows))
     results = W.run_scenarios(bins["wire"], scns)
     for (c, ops, rows), sc, ex, res in zip(metas, scns, exps, results):
@@ -1127,21 +1247,24 @@ def check_wire(run, n, st):
                 if "MS" in later and "MQ" in later:
                     key = "%s/%s" % (loop, form)
                     st["wire_followed"][key] = st["wire_followed"].get(key, 0) + 1
-        if back == ex["backend"] and groups == ex["client"] and hold_ok and not rest:
+        groups_b = observe_wire(res, ex["texts"], client="b")[1] if ex["client_b"] else []
+        if back == ex["backend"] and groups == ex["client"] and groups_b == ex["client_b"] and hold_ok and not rest:
             continue
         # a disagreement: is it the reported prepared-statement replay / stale intercept (the model predicts them too, so they
         # cannot show up here), or a rejected text at the server that the model does not predict?
-        bad_texts = {t for t in ex["texts"] if re.search(r"FROM secret\d+$| as intercepted$", t)} if c["plugins_on"] and c["parser_on"] else set()
-        leaked = [b for b in back if len(b) == 2 and b[1] in bad_texts and b not in ex["backend"]]
-        inp = {"cfg": c, "ops": [list(o) for o in ops], "steps": sc["steps"], "toml": sc["toml"]}
+        leaked = [b for b in back if len(b) == 2 and b[1] in ex["rejected_texts"] and b not in ex["backend"]]
+        inp = {"cfg": c, "plugins_sections": ex["mode"], "ops": [list(o) for o in ops], "steps": sc["steps"], "toml": sc["toml"]}
         if leaked:
             run.violation("counterexample", "a statement the plugins rejected reached the server: %s" % (leaked[0],),
                           {"input": inp, "impl": {"backend": back, "client": groups}, "model": {"backend": ex["backend"], "client": ex["client"]}})
         else:
-            run.violation("tie-broken", "Client::handle and the Coq machine disagree on %s: server saw %s (model %s), client got %s (model %s)%s" %
-                          (json.dumps([list(o) for o in ops]), back, ex["backend"], groups, ex["client"], "" if hold_ok else " [pool holder could not get the server]"),
-                          {"correspondence": "Plugin/Model.v step vs Client::handle (wire)", "input": inp, "impl": {"backend": back, "client": groups, "rest": rest},
-                           "model": {"backend": ex["backend"], "client": ex["client"]}}, found_input=False)
+            run.violation("tie-broken", "Client::handle and the Coq machine disagree (plugins sections: %s) on %s: server saw %s (model %s), client got %s (model %s)%s%s" %
+                          (ex["mode"], json.dumps([list(o) for o in ops]), back, ex["backend"], groups, ex["client"],
+                           "; client of the second pool got %s (model %s)" % (groups_b, ex["client_b"]) if ex["client_b"] else "",
+                           "" if hold_ok else " [pool holder could not get the server]"),
+                          {"correspondence": "Plugin/Model.v effective_plugins + step vs from_config + Client::handle (wire)", "input": inp,
+                           "impl": {"backend": back, "client": groups, "client_b": groups_b, "rest": rest},
+                           "model": {"backend": ex["backend"], "client": ex["client"], "client_b": ex["client_b"]}}, found_input=False)
         return len(scns)
     # model and implementation agree on every scenario.  Now the property itself on what was OBSERVED: a rejected text at
     # the server / rows for a batch that earned none are defects.
@@ -1149,8 +1272,8 @@ def check_wire(run, n, st):
         if not (c["plugins_on"] and c["parser_on"]):
             continue
         back, groups, _, _ = observe_wire(res, ex["texts"])
-        for b in back:
-            if len(b) == 2 and re.search(r"FROM secret\d+$| as intercepted$", b[1]):
+        for b in back[:len(back) - sum(1 for g in ex["client_b"] if g == ("other",))]:      # the second pool's allowed queries come last
+            if len(b) == 2 and b[1] in ex["rejected_texts"]:
                 run.violation("counterexample", "a statement the plugins rejected reached the server: %s" % (b,),
                               {"input": {"cfg": c, "ops": [list(o) for o in ops]}, "impl": {"backend": back}})
                 return len(scns)
@@ -1211,7 +1334,7 @@ def check(run):
                 run.violation("proof-broken", "Plugin/Props.v no longer checks; no failing statement found in the search", {"theorem": "Plugin/Props.v", "coq_log": log[-2500:]}, found_input=False)
         return
     st = {"kf": {}, "rejected": 0, "rejected_by_group": {}, "by_group": {}, "by_pos": {}, "distinct": set(), "spellings": set(), "known": {}, "known_samples": {}, "denied": 0,
-          "gaps_closed": set(), "icpt_kinds": {}, "icpt_matched": 0, "seq": 0, "seq_events": {}, "wire": 0, "wire_groups": {}, "wire_forwarded": 0, "wire_followed": {}}
+          "gaps_closed": set(), "icpt_kinds": {}, "icpt_matched": 0, "seq": 0, "seq_events": {}, "wire": 0, "wire_groups": {}, "wire_forwarded": 0, "wire_followed": {}, "wire_modes": {}}
     evals = 0
     nt = 1000 if quick else 40000
     cases = gen_table_cases(rng, nt)
@@ -1248,7 +1371,7 @@ def check(run):
                                      "distinct_spellings": len(st["spellings"]), "expected_deny": st["denied"], "intercept_verdicts": st["icpt_kinds"], "intercept_replies_read": st["icpt_matched"],
                                      "known_finding_hits": st["known"], "gap_shapes_now_reported": sorted(st["gaps_closed"]),
                                      "model_sequences": st["seq"], "model_sequence_events": st["seq_events"],
-                                     "wire_scenarios": st["wire"], "wire_product_sequences": st.get("wire_product", 0), "wire_rejections_followed_by_batch_and_query": st.get("wire_followed", {}), "wire_reply_groups": st["wire_groups"], "wire_forwarded_messages": st["wire_forwarded"]}
+                                     "wire_scenarios": st["wire"], "wire_product_sequences": st.get("wire_product", 0), "wire_plugins_section_modes": st.get("wire_modes", {}), "wire_rejections_followed_by_batch_and_query": st.get("wire_followed", {}), "wire_reply_groups": st["wire_groups"], "wire_forwarded_messages": st["wire_forwarded"]}
     run.cov["samples"] = [{"kind": "table_access", "sql": c["sql"], "proto": c["proto"], "listed": [b.decode("utf8", "replace") for b in c["listed"]], "real": c.get("real")} for c in cases[:4]] + \
                          [{"kind": "sequence", **(st.get("seq_sample") or {})}]
     if not quick and proof_ok:
